@@ -455,8 +455,10 @@ func (e *CoreExtension) filterDate(value interface{}, args ...interface{}) (inte
 					}
 
 					if !parsed {
-						// If nothing worked, fallback to current time
-						dt = time.Now()
+						// Not a date in any known notation: formatting the
+						// current time instead would hide the mistake (and give
+						// a different text on every day)
+						return nil, fmt.Errorf("date filter: cannot parse %q as a date", v)
 					}
 				}
 			}
@@ -481,9 +483,29 @@ func (e *CoreExtension) filterDate(value interface{}, args ...interface{}) (inte
 			} else {
 				dt = time.Unix(int64(v), 0)
 			}
+		case *time.Time:
+			if v == nil {
+				dt = time.Now()
+			} else {
+				dt = *v
+			}
 		default:
-			// For unknown types, use current time
-			dt = time.Now()
+			// Timestamps of the other numeric kinds (int32, uint64, float32 ...);
+			// anything else is not a date
+			rv := reflect.ValueOf(value)
+			switch rv.Kind() {
+			case reflect.Int, reflect.Int8, reflect.Int16, reflect.Int32, reflect.Int64:
+				dt = time.Unix(rv.Int(), 0)
+			case reflect.Uint, reflect.Uint8, reflect.Uint16, reflect.Uint32, reflect.Uint64:
+				dt = time.Unix(int64(rv.Uint()), 0)
+			case reflect.Float32, reflect.Float64:
+				dt = time.Unix(int64(rv.Float()), 0)
+			default:
+				return nil, fmt.Errorf("date filter: cannot use %T as a date", value)
+			}
+			if dt.Unix() == 0 {
+				dt = time.Now()
+			}
 		}
 	}
 
